@@ -101,7 +101,7 @@ func c20Gen(c *Ctx) (cs c20Case, cell string) {
 	}
 	r := c.R
 	mode := int(k % 6)
-	alpha := []string{"a", "b", "c", "d", "e", "x", "é", "è", "ê", "-", "1", "λ", "μ", "ĩ", "ũ"}
+	alpha := []string{"a", "b", "c", "d", "e", "x", "é", "è", "ê", "-", "1", "λ", "μ", "ĩ", "ũ", "%", "s"}
 	mk := func(lo, hi int) string {
 		n := r.Range(lo, hi)
 		s := ""
@@ -211,6 +211,20 @@ func c20Gen(c *Ctx) (cs c20Case, cell string) {
 		}
 		cs.HasWord = true
 		cell = "very-long-names"
+	}
+	if (k/6)%13 == 5 && cs.HasWord {
+		// a word of hundreds of characters (a pasted token, a path, a blob of JSON where the command was forgotten):
+		// it is far from every name, whatever its length is modulo any machine word size
+		n := []int{255, 256, 257, 300, 511, 512, 513, 1024, 1025}[r.Intn(9)] + r.Intn(2)*r.Intn(40)
+		w := []rune{}
+		for len(w) < n {
+			w = append(w, []rune(alpha[r.Intn(len(alpha))])[0])
+		}
+		if w[0] == '-' {
+			w[0] = 'q'
+		}
+		cs.Word = string(w)
+		cell = "word-of-hundreds-of-characters"
 	}
 	return cs, cell
 }
